@@ -1,8 +1,8 @@
 (* C01 — re-serialising any accepted wire input reproduces the consumed bytes exactly.
    One theorem per parser/serialiser pair of the model; see DESIGN.md for the pairs that
    are so far covered by the correspondence check and oracle only. *)
-From Model Require Import Bytes Prim Tables Cert KAC Sig LS.
-From Proofs Require Import BytesLemmas PrimProofs Frame LeafProofs KacRT OffProofs.
+From Model Require Import Bytes Prim Tables Cert KAC Mapping Sig LS RI.
+From Proofs Require Import BytesLemmas PrimProofs Frame LeafProofs KacRT OffProofs MapRT LS2RT UptoRT LSRT.
 Open Scope Z_scope.
 
 Theorem C01_certificate : forall x c r, wf x -> read_certificate x = Ok (c, r) ->
@@ -63,3 +63,49 @@ Proof. exact read_offline_RoundTrip. Qed.
 Theorem C01_encrypted_lease_set : forall d l r, wf d -> read_encrypted_lease_set d = Ok (l, r) -> els_bytes l ++ r = d.
 Proof. exact read_els_RoundTrip. Qed.
 Print Assumptions C01_encrypted_lease_set.
+
+(* mapping: re-serialisation reproduces the consumed bytes exactly when the declared size
+   holds no slack (known finding D2 is the other case, and only that) *)
+Theorem C01_mapping_iff_no_slack : forall b m r e, wf b ->
+  read_mapping b = Some (m, r, e) -> fatal_errors e = [] ->
+  exists slack, b = firstn 2 b ++ serialize_pairs (map_values m) ++ slack ++ r /\
+                (slack = [] \/ has_min_bytes slack = false) /\
+                (mapping_data m ++ r = b <-> slack = []).
+Proof. exact mapping_roundtrip_iff_no_slack. Qed.
+
+(* LeaseSet (v1): ReadLeaseSet returns no remainder; the serialisation is the prefix of the
+   input up to and including the signature *)
+Theorem C01_lease_set : forall d l, wf d -> read_lease_set d = Ok l ->
+  exists b r, lease_set_bytes l = Ok b /\ b ++ r = d.
+Proof. exact read_lease_set_RoundTrip. Qed.
+Print Assumptions C01_lease_set.
+(* the structures that embed option mappings: Bytes() ++ remainder is the input with the
+   mappings' slack bytes removed — n is the total number of slack bytes, and the round trip is
+   exact precisely when n = 0.  This is the whole extent of known finding D2: nothing else in
+   RouterAddress / RouterInfo / LeaseSet2 / MetaLeaseSet can make re-serialisation differ. *)
+Theorem C01_router_address : forall d a r, wf d -> read_router_address d = Ok (a, r) ->
+  exists c n, d = c ++ r /\ length c = (length (router_address_bytes a) + n)%nat /\
+              (n = 0%nat -> c = router_address_bytes a).
+Proof.
+  intros d a r W H. destruct (read_router_address_upto d a r W H) as [c [n [E [[L U] _]]]]. eauto.
+Qed.
+Theorem C01_router_info : forall d i r, wf d -> read_router_info d = Ok (i, r) ->
+  exists b n, router_info_bytes i = Ok b /\ length d = (length b + n + length r)%nat /\ (b ++ r = d <-> n = 0%nat).
+Proof. exact read_router_info_upto. Qed.
+Theorem C01_lease_set2 : forall x l r, wf x -> read_lease_set2 x = Ok (l, r) ->
+  exists b n, lease_set2_bytes l = Ok b /\ length x = (length b + n + length r)%nat /\ (b ++ r = x <-> n = 0%nat).
+Proof. exact read_lease_set2_upto. Qed.
+Theorem C01_meta_lease_set : forall d l r, wf d -> read_meta_lease_set d = Ok (l, r) ->
+  exists b n, meta_lease_set_bytes l = Ok b /\ length d = (length b + n + length r)%nat /\ (b ++ r = d <-> n = 0%nat).
+Proof. exact read_meta_lease_set_upto. Qed.
+Print Assumptions C01_meta_lease_set.
+(* and the slack is exactly what the mapping parser leaves unparsed inside the declared size *)
+Theorem C01_lease_set2_shape : forall x l r, wf x -> read_lease_set2 x = Ok (l, r) ->
+  exists pre sz slack post,
+    x = pre ++ sz ++ serialize_pairs (map_values (l2_options l)) ++ slack ++ post ++ r /\
+    lease_set2_bytes l = Ok (pre ++ be_encode 2 (N.of_nat (length (serialize_pairs (map_values (l2_options l))))) ++
+                             serialize_pairs (map_values (l2_options l)) ++ post) /\
+    length sz = 2%nat /\ wf sz /\
+    integer_int sz = Z.of_nat (length (serialize_pairs (map_values (l2_options l)) ++ slack)) /\
+    (slack = [] \/ has_min_bytes slack = false).
+Proof. exact read_lease_set2_shape. Qed.
